@@ -78,18 +78,18 @@ PROPS = {
         unproved=[READER_UNPROVED], explanation='iterator, cursor and index-cursor layers proved; bounded stand-in as independent check'),
     'C06': dict(
         level='other',
-        level_text='Proved (Verus): Entry::cmp (and eq/partial_cmp) is exactly the reverse of the lexicographic order on (current key, position at which the source was added), the order the statement prescribes for a max-heap, hence equal keys pop in source order (uses the type invariant "a heap entry holds a valid cursor", established outside the verified set); MergerBuilder operations are panic-free. MergerIter::next (BinaryHeap::peek_mut / PeekMut::pop, iterator chains over drain) is outside what the installed Verus accepts: bounded stand-in: all overlap patterns of 3 sources x 4 keys (every 5th in quick, all 4096 in thorough) plus random merges of up to 6 sources / 150 keys with an order-recording non-commutative merge function that logs every call; both the streaming iterator and write_into_stream_writer (decoded independently).',
-        level_note='MergerIter/BinaryHeap not under contract yet; bounded',
-        technique='Verus contract on the heap order (Entry::cmp) + bounded differential stand-in on the real Merger',
+        level_text='Proved (Verus, unbounded): the whole merge pipeline over an abstract state (for every source, in the order added, its entries and the position of its next unread entry). Merger::into_stream_merger_iter establishes the representation invariant of MergerIter (the heap holds exactly one well-positioned cursor per non-exhausted source); MergerIter::next is one `step` of the abstract state: it returns the smallest key under the heads of the live sources, with the merge function applied exactly once to the values of the sources holding that key in source order (group_vals), and advances exactly those sources -- or None exactly when no source is live; a merge-function error surfaces as Error::Merge. Entry::cmp == reverse lexicographic (key, source position) makes the max-heap pop smallest (key, position) first. Merger::write_into_stream_writer hands the Writer exactly a step trace of the start state (trace_ok, all sources exhausted at the end, termination proved), and pure lemmas show that the keys of a trace are strictly ascending and are exactly the keys of the sources (lemma_trace_ascending, lemma_trace_consumed). ASSUMED: std BinaryHeap (pop/peek return a greatest element, push adds), the user merge function is a deterministic function of (key, values) (mf_out), the hoisted iterator chain collect_values. Independent bounded stand-in: all overlap patterns of 3 sources x 4 keys (every 5th in quick, all 4096 in thorough) plus random merges of up to 6 sources / 150 keys with an order-recording non-commutative merge function that logs every call; both the streaming iterator and write_into_stream_writer (decoded independently).',
+        level_note='assumed: std::collections::BinaryHeap contract (prelude), determinism of the user MergeFunction (mf_out), collect_values (R-hoist of an iterator chain), plus everything C01-C03 assume for the cursors; rewrites R-chain-drain / R-field-split / R-enumerate applied to merger.rs before verification (DESIGN.md 0.3)',
+        technique='Verus contracts on Merger / MergerIter over an abstract k-way merge state (step / trace) + bounded differential stand-in on the real Merger',
         kani=[], native=[N('verif_merge::c06_merge', '837 (4173 thorough) source patterns x 2 routes')], witness=[],
-        unproved=['Merger/MergerIter not under contract'], explanation='bounded stand-in only for now'),
+        unproved=['std BinaryHeap, user MergeFunction determinism, collect_values stub: assumed contracts'], explanation='merge step, start invariant, streaming into a writer and the trace lemmas proved; heap / merge-function contracts assumed'),
     'C07': dict(
         level='other',
-        level_text='Proved (Verus): only the tie-breaking heap order used when chunks are merged (Entry::cmp: equal keys resolved oldest chunk first). Everything else is a bounded stand-in: insert sequences of 0..95k (140k thorough) entries (12-37 MiB, so the real 10 MiB minimum budget spills 1-3 times and chunk merges trigger), duplicates, empty pairs (also as the last pending entry), one entry larger than the buffer; 4 configurations (realloc on/off, max chunks 1/2/3/25, stable/unstable, sequential/rayon, 4 codecs, index levels 0..3) x 3 output routes, compared with sort-and-merge of the inserts in insertion order (multiset per key under the unstable sort).',
-        level_note='Sorter not under contract yet; rayon scheduling is not controllable (whatever schedule the run takes); bounded',
-        technique='bounded differential stand-in on the real Sorter',
+        level_text='Proved (Verus): the merge stage the sorter ends with (C06: MergerIter::next is a step of the abstract merge state, ties between chunks resolved oldest chunk first by Entry::cmp; Merger::write_into_stream_writer emits exactly a step trace), the in-memory buffer bookkeeping (C17) and the spill invariant (C08). NOT under contract: Sorter::write_chunk (sort bounds by key, group equal keys, merge each group, write a run), merge_chunks and the extraction of the chunk cursors -- closures over cast slices and fn pointers to sort routines -- so the end-to-end statement is decided by the bounded stand-in: insert sequences of 0..95k (140k thorough) entries (12-37 MiB, so the real 10 MiB minimum budget spills 1-3 times and chunk merges trigger), duplicates, empty pairs (also as the last pending entry), one entry larger than the buffer; 4 configurations (realloc on/off, max chunks 1/2/3/25, stable/unstable, sequential/rayon, 4 codecs, index levels 0..3) x 3 output routes, compared with sort-and-merge of the inserts in insertion order (multiset per key under the unstable sort).',
+        level_note='write_chunk / merge_chunks / Entries::iter / sort_by_key not under contract; rayon scheduling is not controllable (whatever schedule the run takes); bounded',
+        technique='Verus contracts on the final merge stage and the buffer + bounded differential stand-in on the real Sorter',
         kani=[], native=[N('verif_merge::c07_sorter_equals_sort_and_merge', '34 runs, 10 with spills (more in thorough)')], witness=[],
-        unproved=['Sorter not under contract'], explanation='bounded stand-in only for now'),
+        unproved=['Sorter::write_chunk / merge_chunks / chunk extraction not under contract'], explanation='merge stage and buffer proved; sort-and-spill stage bounded'),
     'C08': dict(
         level='other',
         level_text='Proved (Verus, unbounded in the number of inserts; induction = the representation invariant required and ensured by Sorter::insert): with entries of at most budget/4 (16-byte bound included) every insert that returns Ok keeps bytes-in-use <= capacity, capacity < 2 x dump_threshold when reallocation is allowed (non-linear doubling lemma) and == the 16-rounded threshold otherwise, at most max(max_nb_chunks-1, 1) chunks after the call (so at most max+2 alive inside it), and the buffer only shrinks through a chunk obtained from the ChunkCreator; SorterBuilder clamps the budget to >= 10 MiB and max_nb_chunks to >= 1. The buffer bookkeeping itself (Entries::fits exact, insert grows by minimal repeated doubling, reallocate_buffer doubles) is now proved on the real code (see C17). Assumed: the chunk-count contracts of write_chunk / merge_chunks; bounded stand-in for them: 55 MiB (90 thorough) of small-entry inserts through a counting ChunkCreator for 7 (threshold, realloc, max_nb_chunks, injected create failure) settings incl. non-16-aligned budgets and max_nb_chunks 1: bytes inserted since the last create() <= 2x budget (1x without realloc), live chunks <= max+2, every spill goes through the creator, no chunk leaks.',
@@ -122,12 +122,12 @@ PROPS = {
         explanation='write side proved modulo std contracts; read side bounded'),
     'C12': dict(
         level='other',
-        level_text='Proved (Verus): panic-freedom of every function under contract (no overflow, no failing unwrap/index under the stated physical bounds), Error::convert_merge_error total on non-merge errors, io errors converted by From, CountWrite::into_inner flushes before handing the sink back, Writer::into_inner returns Ok only after trailer and flush. Bounded: exhaustive k-th-call fault injection on sinks (two error kinds), sources, chunk creator (io and InvalidFormatVersion), chunk storage and merge function through Writer, Reader, Merger and Sorter under catch_unwind.',
-        level_note=ASSUME_IO + '; reader/merger/sorter error paths not under contract',
+        level_text='Proved (Verus): panic-freedom of every function under contract (no overflow, no failing unwrap/index under the stated physical bounds) -- write path, block decoding, all cursor operations, iterators, merger, sorter buffer; every such function returns Err (never a Merge error) when a source/sink operation it performs fails, and the verified callers propagate it with `?`; Error::convert_merge_error total on non-merge errors, io errors converted by From, CountWrite::into_inner flushes before handing the sink back, Writer::into_inner returns Ok only after trailer and flush; MergerIter::next returns Err(Merge) exactly when the merge function fails and, when it returns Ok, every source of the group was advanced and is back in the heap iff it has a next entry (a swallowed I/O error would break that clause). Bounded: exhaustive k-th-call fault injection on sinks (two error kinds), sources (every fault point of both merged sources), chunk creator (io and InvalidFormatVersion), chunk storage and merge function through Writer, Reader, Merger and Sorter under catch_unwind.',
+        level_note=ASSUME_IO + '; Sorter::write_chunk / merge_chunks error paths not under contract',
         technique='Verus safety obligations + error-kind postconditions on the write path; bounded exhaustive fault injection stand-in',
         kani=[dict(name='c12_convert_merge_error_total', kind='complete')], native=[N('verif_io::c12_faults_surface_as_err', '~3500 sink fault points, ~2200 source fault points, ~550 merge/create/chunk fault points')], witness=[],
-        unproved=['reader/merger/sorter error propagation not under contract'], assumptions=[ASSUME_IO],
-        explanation='write path proved; other paths bounded'),
+        unproved=['Sorter::write_chunk / merge_chunks error propagation not under contract'], assumptions=[ASSUME_IO],
+        explanation='write, read and merge paths proved; sorter spill paths bounded'),
     'C13': dict(
         level='proof',
         level_text='Proved (Verus, all byte strings, any Read+Seek source): Metadata::read_from / Reader::new return Ok only if the string ends with a complete V1/V2 trailer with a known codec id, and then return exactly the decoded fields (and that trailer is unique: lemma_trailer_inj); they never panic; and on a source that fails only when asked for bytes past its end (rd_reliable: in-memory cursors, files) they return Ok for EVERY string ending in such a trailer (MD.read.complete, RD.new.exact) -- so acceptance is exactly "ends in a valid trailer". Independent checks: Kani on the real std::io::Cursor for all contents up to 26 bytes; native: every truncation of scenario files near the tail, every single-byte corruption of the trailer, all codec bytes 0..8 for both versions, thousands of random short strings, each also through a source that splits reads into 1..3-byte pieces with Interrupted, compared with an independent trailer parser.',
